@@ -626,6 +626,12 @@ func (env *Env) evalCall(x *ECall) SV {
 	case "contains":
 		argn(2)
 		return mathBool(env.fc.errContains(env.eval(x.Args[0]), env.eval(x.Args[1])))
+	case "errContainsTV":
+		// contains(err, (tag, val)) with the element given by its two components
+		argn(3)
+		errT := types.Universe.Lookup("error").Type()
+		el := SV{Typ: errT, T: []Term{env.evalInt(x.Args[1]), env.evalInt(x.Args[2])}}
+		return mathBool(env.fc.errContains(env.eval(x.Args[0]), el))
 	}
 	switch x.Fn {
 	case "store":
@@ -707,8 +713,11 @@ func (env *Env) noLocals() {
 // env builds the spec environment of the function for a program point.
 func (fc *FnCtx) env(st *State, at *ssa.BasicBlock) *Env {
 	env := &Env{fc: fc, vc: fc.vc, st: st, old: fc.entry, vars: map[string]SV{}, bound: map[string]Term{}, at: at, nquant: &fc.vc.n}
-	for k, v := range fc.entryEnv {
-		env.vars[k] = v
+	if at == nil {
+		// function-level clause: parameter names denote entry values
+		for k, v := range fc.entryEnv {
+			env.vars[k] = v
+		}
 	}
 	env.oldVars = fc.entryEnv
 	if fc.contract != nil {
@@ -745,27 +754,68 @@ func (fc *FnCtx) resolveLocal(name string, at *ssa.BasicBlock, atInstr ssa.Instr
 	}
 	refs := fc.dbg[name]
 	if at != nil {
-		var best *ssa.DebugRef
+		// reaching definition: the nearest dominating DebugRef or phi of that variable
+		type cand struct {
+			blk *ssa.BasicBlock
+			idx int
+			val ssa.Value
+		}
+		var cands []cand
+		instrIdx := func(in ssa.Instruction) int {
+			for i, x := range in.Block().Instrs {
+				if x == in {
+					return i
+				}
+			}
+			return -1
+		}
 		for _, r := range refs {
-			if _, have := fc.vals[r.X]; !have && !isConst(r.X) {
-				if _, isParam := r.X.(*ssa.Parameter); !isParam {
+			cands = append(cands, cand{r.Block(), instrIdx(r), r.X})
+		}
+		for _, b := range fc.fn.Blocks {
+			for i, in := range b.Instrs {
+				phi, ok := in.(*ssa.Phi)
+				if !ok {
+					break
+				}
+				if phi.Comment == name {
+					cands = append(cands, cand{b, i, phi})
+				}
+			}
+		}
+		atIdx := 1 << 30
+		if atInstr != nil {
+			atIdx = instrIdx(atInstr)
+		}
+		var best *cand
+		for i := range cands {
+			c := &cands[i]
+			if _, have := fc.vals[c.val]; !have && !isConst(c.val) {
+				if _, isParam := c.val.(*ssa.Parameter); !isParam {
 					continue
 				}
 			}
-			rb := r.Block()
-			if rb == at {
-				if atInstr != nil && !instrBefore(r, atInstr) {
+			if c.blk == at {
+				if c.idx >= atIdx {
 					continue
 				}
-			} else if !rb.Dominates(at) {
+			} else if !c.blk.Dominates(at) {
 				continue
 			}
-			if best == nil || better(r, best, at) {
-				best = r
+			if best == nil {
+				best = c
+				continue
+			}
+			if c.blk == best.blk {
+				if c.idx > best.idx {
+					best = c
+				}
+			} else if best.blk.Dominates(c.blk) {
+				best = c
 			}
 		}
 		if best != nil {
-			return fc.val(best.X), true
+			return fc.val(best.val), true
 		}
 	}
 	for _, p := range fc.fn.Params {
